@@ -218,8 +218,54 @@ class Evolver:
         return True
 
 
+def gen_huge_lineage(rng):
+    """Boundary fleets: sizes and capacities close to the 16-bit limits of the
+    prefix (message size <= 65535 bits, capacity <= 65535), where integer
+    widths and signedness of the skip arithmetic matter."""
+    r = rng
+    s = sg.Schema("pkt")
+    elem = r.choice([sg.Bool(), sg.Uint(1), sg.Uint(2), sg.Int(3), sg.Byte()])
+    eb = sg.nbits(elem)
+    cap1 = r.choice([255, 256, 4095, 4096, 8191, 16383, 16384, 20000, 32767, 32768]) // (1 if eb <= 2 else eb)
+    cap1 = max(1, cap1)
+    inner = sg.Message("Msga", True)
+    inner.fields = [sg.Field(1, "x_a", sg.Uint(r.choice([1, 3, 7]))), sg.Field(2, "x_b", sg.Array(elem, cap1, True)), sg.Field(3, "x_c", sg.Int(r.choice([5, 13, 33])))]
+    root = sg.Message("Packet", r.chance(0.5))
+    root.fields = [sg.Field(1, "x_a", sg.Uint(r.choice([1, 2, 5, 8]))), sg.Field(2, "x_b", inner), sg.Field(7, "x_c", sg.Uint(r.choice([7, 16, 31]))), sg.Field(9, "x_d", sg.Array(sg.Int(9), 2, True))]
+    s.defs = [inner, root]
+    s.counter = 10
+    versions = [s]
+    steps = []
+    cur = s
+    for v in range(r.randint(1, 2)):
+        nxt = cur.clone()
+        m = nxt.find("Msga")
+        arr = m.fields[1].type
+        room = (65535 - 16 - sg.nbits(nxt.find("Packet"))) // eb
+        if room < 1:
+            break
+        old = arr.cap
+        grow = r.choice([1, room // 2, room - 1, room]) if room > 2 else 1
+        arr.cap = min(65535, old + max(1, grow))
+        d = [{"step": "grow", "from": old, "to": arr.cap, "depth": 2}]
+        if r.chance(0.5) and sg.nbits(nxt.find("Packet")) < 65000:
+            top = max(f.num for f in m.fields)
+            m.fields.append(sg.Field(top + 1, "x_" + sg.letters(len(m.fields)), sg.Uint(r.choice([1, 8, 17]))))
+            d.append({"step": "append", "message": "Msga", "fields": 1, "depth": 1})
+        if not all(sg.nbits(mm) <= 65535 for mm in nxt.all_messages()):
+            break
+        versions.append(nxt)
+        steps.append(d)
+        cur = nxt
+    return versions, steps
+
+
 def gen_lineage(seed: int):
     rng = Rng(seed, "lineage")
+    if Rng(seed, "huge").chance(0.06):
+        versions, steps = gen_huge_lineage(rng.sub("huge"))
+        if len(versions) >= 2:
+            return versions, steps
     for attempt in range(50):
         r = rng.sub("try", attempt)
         s, g = sg.generate(r, fleet=True)
@@ -262,7 +308,7 @@ def gen_plan(seed: int):
     nodes.append({"id": nnodes, "runtime": "ref", "role": "producer", "version": k - 1})  # reference producer (stub)
     events = []
     t = 0
-    nticks = rng.randint(12, 40)
+    nticks = rng.randint(12, 40) if sg.nbits(newest) < 8000 else rng.randint(3, 6)
     styles = ["zero", "ones", "max", "min", "alt", "rand", "mixed", "mixed", "rand"]
     producers = [n["id"] for n in nodes if n["role"] == "producer"]
     receivers = [n["id"] for n in nodes if n["runtime"] != "ref"]
